@@ -239,4 +239,20 @@ def rule_registered_callable_runs(ctx: Ctx):
     check_fresh(ctx, "C14.collect", _resolution_pipeline(ctx), "results come from the registered callbacks' own return values")
 
 
-RULES = [rule_flow, rule_collect, rule_none, rule_first, rule_every_callback, rule_stale_queue, rule_own_event, rule_registered_callable_runs]
+def rule_every_provider_contributes(ctx: Ctx):
+    """C14.collect: the before/on callbacks whose values make up the result include those of every listener that was attached:
+    each attachment resolves exactly the listeners it was given, against every state and transition."""
+    from . import c12
+
+    c12.rule_samepath(ctx, rule="C14.collect")
+
+
+def rule_results_are_awaited_values(ctx: Ctx):
+    """C14.collect: the values collected from coroutine callbacks are their awaited results: the flag that makes the machine use
+    the awaiting engine is true for every callable that hands back a coroutine."""
+    from . import c05
+
+    c05.rule_flag_chain(ctx, rule="C14.collect")
+
+
+RULES = [rule_flow, rule_collect, rule_none, rule_first, rule_every_callback, rule_stale_queue, rule_own_event, rule_registered_callable_runs, rule_results_are_awaited_values, rule_every_provider_contributes]
